@@ -304,9 +304,7 @@ def _run(ctx, g, c):
     key = (c["kind"], c["path"], c["shuffle"], min(growth_rounds, 3), exit_kind, c["n_linear"] > 1) if nontriv else None
     ctx.evaluated(REL, key, sample=dict(inp, outcome=out, returned_rows=None if groups is None else groups[:8]))
 
-    if over:
-        return
-    # ---- correspondence with the Lean machine (trace replay)
+    # ---- correspondence with the Lean machine (trace replay); the machine clamps an over-size budget like the code
     m = ctx.model(model_op(c, ob))
     merr = m.get("err")
     mclass = {"value": "value", "runtime": "runtime", "maxiter": "runtime", None: "ok"}.get(merr, "bad")
